@@ -198,4 +198,79 @@ func c42(r *core.Run) {
 	}
 	r.Check(nChk >= 5, "R4.enforce", "encoding/ccf decode*: order enforcement sites", 0, "5 enforcement sites present", "fewer than the 5 reviewed order-enforcement sites remain in the decoder")
 	r.Floor("R4.enforce", 6)
+
+	// R5 one ordering scheme: every sorter Less and every *AreSortedBytewise helper orders either by bytes.Compare on
+	// encoded bytes or length-first on strings — the two sides (encoder sort, decoder enforcement) cannot diverge
+	for _, fd := range w.FuncDeclsIn("encoding/ccf") {
+		if w.File(fd.Pos()) != "encoding/ccf/sort.go" {
+			continue
+		}
+		if !(fd.Name.Name == "Less" || strings.HasSuffix(fd.Name.Name, "AreSortedBytewise")) {
+			continue
+		}
+		lenLt, bytesCmp := false, false
+		ast.Inspect(fd.Body, func(n ast.Node) bool {
+			switch x := n.(type) {
+			case *ast.BinaryExpr:
+				if x.Op.String() == "<" && isLenCall(x.X) && isLenCall(x.Y) {
+					lenLt = true
+				}
+			case *ast.CallExpr:
+				if sel, ok := x.Fun.(*ast.SelectorExpr); ok && sel.Sel.Name == "Compare" {
+					if f, ok := info.Uses[sel.Sel].(*types.Func); ok && f.Pkg() != nil && f.Pkg().Path() == "bytes" {
+						bytesCmp = true
+					}
+				}
+			}
+			return true
+		})
+		key := core.DeclKey(p, fd)
+		r.Check(lenLt || bytesCmp, "R5.ordering", key, fd.Pos(), "orders length-first / by bytes.Compare like its counterpart on the other side",
+			"ordering function compares neither lengths first nor encoded bytes: the encoder's sort order and the decoder's enforced order diverge for IDs of different length")
+	}
+	r.Floor("R5.ordering", 7)
+
+	// R6 typedef collection visits every child: the traversal registers types as a side effect, so a traversal call may
+	// never be the right operand of a short-circuit operator (it would be skipped when the left operand decides)
+	for _, fd := range w.FuncDeclsIn("encoding/ccf") {
+		if w.File(fd.Pos()) != "encoding/ccf/traverse_value.go" {
+			continue
+		}
+		key := core.DeclKey(p, fd)
+		n, bad := 0, 0
+		ast.Inspect(fd.Body, func(nd ast.Node) bool {
+			switch x := nd.(type) {
+			case *ast.CallExpr:
+				if sel, ok := x.Fun.(*ast.SelectorExpr); ok && strings.HasPrefix(sel.Sel.Name, "traverse") {
+					n++
+				}
+			case *ast.BinaryExpr:
+				if x.Op.String() == "||" || x.Op.String() == "&&" {
+					ast.Inspect(x.Y, func(m ast.Node) bool {
+						if c, ok := m.(*ast.CallExpr); ok {
+							if sel, ok := c.Fun.(*ast.SelectorExpr); ok && strings.HasPrefix(sel.Sel.Name, "traverse") {
+								bad++
+								r.Bad("R6.traversal", key+": "+types.ExprString(c), c.Pos(), "type/value traversal call is the right operand of a short-circuit operator: the child is not registered for the typedef section when the left operand is true")
+							}
+						}
+						return true
+					})
+				}
+			}
+			return true
+		})
+		if n > 0 && bad == 0 {
+			r.OK("R6.traversal", key, fd.Pos(), "all traversal calls are unconditional statements/assignments")
+		}
+	}
+	r.Floor("R6.traversal", 2)
+}
+
+func isLenCall(e ast.Expr) bool {
+	c, ok := e.(*ast.CallExpr)
+	if !ok {
+		return false
+	}
+	id, ok := c.Fun.(*ast.Ident)
+	return ok && id.Name == "len"
 }
